@@ -318,7 +318,16 @@ class repeated_node_property(base_rw_property[RepeatedNodeWrapper[_M], base.RawT
         repeated = self._inner_field.__get__(instance)
         replace_node(repeated, value.repeated)
         self._inner_field.__set__(instance, value.repeated)
+        invalidate_cached_properties(instance)
         instance.__dict__[self._attr] = value
+
+
+def invalidate_cached_properties(instance: base.RawTreeModel) -> None:
+    """Drops cached views, which are bound to the wrapper they were created from."""
+    for klass in type(instance).__mro__:
+        for name, attr in vars(klass).items():
+            if isinstance(attr, cached_custom_property):
+                instance.__dict__.pop(name, None)
 
 
 def _default_fset(instance: _U, value: _V) -> None:
